@@ -1,6 +1,7 @@
 """C11 - Jordan-Wigner encoding reproduces the operator exactly.
 (The encoder part of the harness is shared with C12: `encoder_run(ctx, parity)`.)"""
 import itertools, sys, os
+from fractions import Fraction
 import numpy as np
 from vlib import coqterm as ct
 from checks import C10 as base
@@ -101,6 +102,195 @@ def oracle_enc(ctx, W, L, terms, parity, exact=True, lad=None):
     if len(enc.pstrings) > 1 and any(abs(w.weight) <= 1e-14 for w in enc.pstrings):
         ctx.fail(name + ":negligible-string-not-pruned", d)
     return enc, E
+
+
+# ---------------------------------------------------------------------------------------------
+# The precise statement for ANY coefficient magnitude (what "up to rounding" / pruning at 1e-14 allows):
+#   the operator matrix has a unique expansion  sum_{z,x} g(z,x) Z^z X^x ; the encoder's result must contain
+#   * every string (z,x) with |g(z,x)| > 1e-14, with that weight (times its phase),
+#   * no two equal strings, no string of weight <= 1e-14 unless it is the only one left,
+#   and a string may be ABSENT only if |g(z,x)| <= 1e-14
+#   (so: encoded matrix + pruned remainder = operator matrix, pruned strings negligible, nothing larger dropped).
+# All comparisons in exact rational arithmetic, with a rigorous bound for binary64 accumulation error.
+PRUNE_TOL = Fraction(1e-14)          # the documented threshold of remove_zero_weight_strings(tol=1e-14)
+MIPOW = [(1, 0), (0, -1), (-1, 0), (0, 1)]       # (-i)^k as (re, im)
+
+
+def mask_of(bits):
+    m = 0
+    for b in bits:
+        m = (m << 1) | int(b)
+    return m
+
+
+def pauli_coefficients(ref):
+    """g[(z,x)] = 2^-L sum_c (-1)^{z.(c^x)} R[c^x, c]  for the exact matrix R (site 0 = most significant bit)"""
+    L = ref.L
+    d = 2 ** L
+    cols = {}
+    for (r, c), v in ref.R.items():
+        if v[0] or v[1]:
+            cols.setdefault(r ^ c, []).append((c, v))
+    g = {}
+    for x, ent in cols.items():
+        for z in range(d):
+            re, im = Fraction(0), Fraction(0)
+            for c, v in ent:
+                if bin(z & (c ^ x)).count("1") & 1:
+                    re -= v[0]
+                    im -= v[1]
+                else:
+                    re += v[0]
+                    im += v[1]
+            if re or im:
+                g[(z, x)] = (re / d, im / d)
+    return g
+
+
+_selftest_done = set()
+
+
+def selftest_pauli_convention(W, L, rng):
+    """Z^z X^x with the phase (-i)^(q + z.x) is what PauliString.as_matrix returns (C09's convention); checked once
+    per L on a few random strings so that a change of that convention is not mistaken for an encoder defect"""
+    if L in _selftest_done:
+        return True
+    _selftest_done.add(L)
+    ok = True
+    for _ in range(6):
+        z = [rng.randint(0, 1) for _ in range(L)]
+        x = [rng.randint(0, 1) for _ in range(L)]
+        q = rng.randint(0, 3)
+        M = dense(W.qib.operator.PauliString(z, x, q).as_matrix())
+        G = kron_all([np.linalg.matrix_power(Z2, a) @ np.linalg.matrix_power(X2, b) for a, b in zip(z, x)])
+        ph = [1, -1j, -1, 1j][(q + sum(a * b for a, b in zip(z, x))) % 4]
+        ok = ok and np.array_equal(M, ph * G)
+    return ok
+
+
+def oracle_encx(ctx, W, L, terms, parity, lad=None, enc=None):
+    """the statement above on one operator; returns (encoded operator, every comparison was exact?)"""
+    name = "parity" if parity else "jw"
+    d = dict(desc_terms(L, terms), kind="encx", parity=parity)
+    if enc is None:
+        enc = encoder_of(W, parity)(W.op(L, terms))
+    if not enc.pstrings:
+        return enc, False            # reported by oracle_enc (all-zero operator without dimension)
+    if parity:
+        lad = lad or enc_lad_impl(W, L, True)
+
+        def site_x(j):
+            rr, cc = np.nonzero(lad(j, True))
+            return int(rr[0]) ^ int(cc[0]) if len(rr) else 0
+        ref = base.ExactRef(L, terms, base.dense_entries(L, lad), site_x)
+        what = "sum coeff * ordered product of the encoded ladder operators"
+    else:
+        ref = base.ExactRef(L, terms, base.fermi_entries(L))
+        what = "matrix of the field operator"
+    g = pauli_coefficients(ref)
+    out, seen = {}, set()
+    exact = True
+    for w in enc.pstrings:
+        ps = w.paulis
+        if len(ps.z) != L or len(ps.x) != L:
+            ctx.fail(name + ":string-has-wrong-length", d, L, len(ps.z))
+            return enc, False
+        key3 = (mask_of(ps.z), mask_of(ps.x), int(ps.q))
+        if key3 in seen:
+            ctx.fail(name + ":duplicate-string-in-result", d, "each Pauli string once", "z=%s x=%s q=%d twice" % (list(ps.z), list(ps.x), ps.q))
+        seen.add(key3)
+        wt = complex(w.weight)
+        if not (np.isfinite(wt.real) and np.isfinite(wt.imag)):
+            ctx.fail(name + ":non-finite-weight", d, "finite weights", repr(wt))
+            return enc, False
+        zx = sum(int(a) * int(b) for a, b in zip(ps.z, ps.x))
+        pr, pi = MIPOW[(int(ps.q) + zx) % 4]
+        wr, wi = Fraction(wt.real), Fraction(wt.imag)
+        o = out.setdefault(key3[:2], [Fraction(0), Fraction(0)])
+        o[0] += wr * pr - wi * pi
+        o[1] += wr * pi + wi * pr
+        if len(enc.pstrings) > 1 and wr * wr + wi * wi <= PRUNE_TOL * PRUNE_TOL:
+            ctx.fail(name + ":negligible-string-not-pruned", d, "|weight| > 1e-14 for every string of a result with several strings", repr(wt))
+    for key in set(out) | set(g):
+        gr, gi = g.get(key, (Fraction(0), Fraction(0)))
+        bound = ref.xbound(key[1])
+        if key in out:
+            dr, di = abs(out[key][0] - gr), abs(out[key][1] - gi)
+            if dr or di:
+                exact = False
+            if max(dr, di) > bound:
+                ctx.fail(name + ":string-weight-differs-from-exact-pauli-coefficient", d,
+                         "coefficient of Z^%s X^%s in the %s = %s%+sj" % (bin(key[0])[2:].zfill(L), bin(key[1])[2:].zfill(L), what,
+                                                                      base.fstr(gr), base.fstr(gi)),
+                         "%s%+sj (allowed rounding error %.3g)" % (base.fstr(out[key][0]), base.fstr(out[key][1]), float(bound)))
+                break
+        else:
+            lim = PRUNE_TOL + bound
+            if gr * gr + gi * gi > lim * lim:
+                ctx.fail(name + ":string-above-pruning-threshold-dropped", d,
+                         "a string may be absent only if its coefficient is <= 1e-14 in magnitude",
+                         "Z^%s X^%s with coefficient %s%+sj is absent" % (bin(key[0])[2:].zfill(L), bin(key[1])[2:].zfill(L),
+                                                                         base.fstr(gr), base.fstr(gi)))
+                break
+    return enc, exact
+
+
+def enc_listing(enc):
+    return [(tuple(int(v) for v in w.paulis.z), tuple(int(v) for v in w.paulis.x), int(w.paulis.q), complex(w.weight)) for w in enc.pstrings]
+
+
+def oracle_enc_homog(ctx, W, L, terms, parity, e):
+    """encode(2^e A) = 2^e encode(A): same strings in the same order, weights scaled exactly (valid when no weight
+    comes near the pruning threshold: the caller keeps all weights above 2^-40)"""
+    name = "parity" if parity else "jw"
+    d = dict(desc_terms(L, terms), kind="enchomog", parity=parity, e=e)
+    f = encoder_of(W, parity)
+    l0 = enc_listing(f(W.op(L, terms)))
+    l1 = enc_listing(f(W.op(L, base.scale_terms(terms, e))))
+    want = [(z, x, q, w * 2.0 ** e) for z, x, q, w in l0]
+    if l1 != want:
+        ctx.fail(name + ":encoding-not-homogeneous-in-the-coefficients", d, "encode(2^%d A) = 2^%d encode(A), string by string" % (e, e),
+                 "%d strings vs %d; first difference: %r" % (len(l1), len(want), next(((a, b) for a, b in zip(l1, want) if a != b), None)))
+
+
+def oracle_enc_history(ctx, W, L, ta, tb, parity):
+    """encode(A) does not modify A; two calls give identical results; results are not changed by later calls
+    (also on other operators); the operator can be used afterwards"""
+    name = "parity" if parity else "jw"
+    d = {"kind": "enchist", "parity": parity, "a": desc_terms(L, ta), "b": desc_terms(L, tb)}
+    f = encoder_of(W, parity)
+    A, B = W.op(L, ta), W.op(L, tb)
+    sa, sb = base.snapshot(W, A), base.snapshot(W, B)
+    MA = dense(A.as_matrix())
+    e1 = f(A)
+    l1 = enc_listing(e1)
+    E1 = e1.as_matrix()
+    E1 = dense(E1) if np.ndim(E1) == 2 else None
+    eb = f(B)
+    lb = enc_listing(eb)
+    e2 = f(A)
+    eS = f(A + B)
+    eP = f(A @ B) if max(len(p) for p, _ in ta) + max(len(p) for p, _ in tb) <= 4 else None
+    e3 = f(A)
+    for nm, snap, X in (("A", sa, A), ("B", sb, B)):
+        df = base.snapshot_diff(W, snap, X)
+        if df:
+            ctx.fail(name + ":history:operand-modified-by-encode", d, "%s unchanged" % nm, df)
+    if enc_listing(e2) != l1 or enc_listing(e3) != l1:
+        ctx.fail(name + ":history:encode-not-reproducible", d, "repeated encode(A) give identical string lists", "differ")
+    if enc_listing(e1) != l1 or enc_listing(eb) != lb:
+        ctx.fail(name + ":history:earlier-result-changed-by-later-calls", d, "a result is not touched by later encode calls", "changed")
+    if E1 is not None:
+        E1b = e1.as_matrix()
+        if np.ndim(E1b) != 2 or not np.array_equal(dense(E1b), E1):
+            ctx.fail(name + ":history:as_matrix-of-result-not-reproducible", d, "two as_matrix() calls agree", "differ")
+    if not np.array_equal(dense(A.as_matrix()), MA):
+        ctx.fail(name + ":history:operator-matrix-changed-by-encode", d, "A.as_matrix() as before", "differs")
+    # the sum / product objects go through the precise oracle as well (terms shared with A and B)
+    lad = enc_lad_impl(W, L, True) if parity else None
+    oracle_encx(ctx, W, L, list(ta) + list(tb), parity, lad=lad, enc=eS)
+    if eP is not None:
+        oracle_encx(ctx, W, L, W.terms_of(A @ B), parity, lad=lad, enc=eP)
 
 
 def oracle_parity_ladders(ctx, W, L):
@@ -207,6 +397,9 @@ def encoder_run(ctx, parity):
             lad = enc_lad_impl(W, L, True)
         try:
             enc, E = oracle_enc(ctx, W, L, terms, parity, exact=True, lad=lad)
+            if L <= 4 or ctx.thorough or rng.random() < 0.3:
+                ctx.count("precise_oracle")
+                oracle_encx(ctx, W, L, terms, parity, lad=lad, enc=enc)
         except Exception as e:
             ctx.fail(name + ":exception", d, "encoded operator", repr(e))
             continue
@@ -215,6 +408,63 @@ def encoder_run(ctx, parity):
         add("CEnc %s %s %s %s" % (ct.b(parity), ct.nat(L), cop(terms), enc_strings(enc)), dict(d, op="encode"), nt)
         if E is not None and L <= 4 and len(enc.pstrings) <= 40 and rng.random() < 0.35:
             add("CEncMat %s %s %s %s" % (ct.b(parity), ct.nat(L), cop(terms), base.qimat(E)), dict(d, op="encode.as_matrix"), nt)
+
+    # ------------------------------------------------------------ coefficient magnitudes over the binary64 range
+    if not selftest_pauli_convention(W, 3, rng):
+        ctx.fail(name + ":pauli-matrix-convention-changed", {"kind": "selftest"}, "PauliString.as_matrix = (-i)^(q+z.x) Z^z X^x", "differs")
+    for L, terms, tag, e in base.scaled_family(rng, ctx.thorough):
+        ctx.count("scaled_" + tag)
+        if parity and L not in lads:
+            lads[L] = enc_lad_impl(W, L, True)
+        d = dict(desc_terms(L, terms), kind="encx", parity=parity)
+        nf = sum(f["count"] for f in ctx.failing)
+        try:
+            enc, exact = oracle_encx(ctx, W, L, terms, parity, lad=lads.get(L))
+            if e is not None and -30 <= e <= 60:
+                oracle_enc(ctx, W, L, terms, parity, exact=True, lad=lads.get(L))
+        except Exception as ex:
+            ctx.fail(name + ":exception", d, "encoded operator", repr(ex))
+            continue
+        # the model on the same data, where binary64 arithmetic was exact and nothing underflowed
+        if (e is None or e >= -1040) and sum(np.asarray(c).size for _, c in terms) <= 40 and len(enc.pstrings) <= 40:
+            if exact or sum(f["count"] for f in ctx.failing) > nf:
+                ctx.count("scaled_cases_for_the_model")
+                add("CEnc %s %s %s %s" % (ct.b(parity), ct.nat(L), cop(terms), enc_strings(enc)), dict(d, op="encode", scale=tag, e=e),
+                    nontrivial(terms))
+    for L, terms in base.long_product_terms(rng, ctx.thorough):
+        ctx.count("long_products")
+        if parity and L not in lads:
+            lads[L] = enc_lad_impl(W, L, True)
+        d = dict(desc_terms(L, terms), kind="encx", parity=parity)
+        try:
+            enc, exact = oracle_encx(ctx, W, L, terms, parity, lad=lads.get(L))
+            oracle_enc(ctx, W, L, terms, parity, exact=True, lad=lads.get(L))
+            add("CEnc %s %s %s %s" % (ct.b(parity), ct.nat(L), cop(terms), enc_strings(enc)), dict(d, op="encode", long=len(terms[0][0])), True)
+        except Exception as ex:
+            ctx.fail(name + ":exception", d, "encoded operator", repr(ex))
+    for _ in range(30 if ctx.thorough else 10):
+        L = rng.choice([1, 2, 2, 3])
+        terms = rand_terms(rng, L, nterms=rng.choice([1, 2]), kmax=3, budget=30)
+        e = rng.choice([-30, -27, -20, -10, 10, 40, 100, 300, 900])
+        ctx.count("homogeneity")
+        try:
+            oracle_enc_homog(ctx, W, L, terms, parity, e)
+        except Exception as ex:
+            ctx.fail(name + ":exception", dict(desc_terms(L, terms), kind="enchomog", parity=parity, e=e), "encoded operator", repr(ex))
+    # ------------------------------------------------------------ history / aliasing
+    for n in range(60 if ctx.thorough else 20):
+        L = rng.choice([1, 2, 2, 3])
+        if n % 2:
+            ta, tb = base.dup_pattern_terms(rng, L)
+        else:
+            ta = rand_terms(rng, L, nterms=rng.choice([1, 2]), kmax=2, budget=30)
+            tb = rand_terms(rng, L, nterms=rng.choice([1, 2]), kmax=2, budget=30)
+        ctx.count("history")
+        try:
+            oracle_enc_history(ctx, W, L, ta, tb, parity)
+        except Exception as ex:
+            ctx.fail(name + ":exception", {"kind": "enchist", "parity": parity, "a": desc_terms(L, ta), "b": desc_terms(L, tb)},
+                     "encode history", repr(ex))
 
     # ------------------------------------------------------------ float sweep (oracle only): rounding and pruning
     nfl = 300 if ctx.thorough else 60
@@ -232,7 +482,8 @@ def encoder_run(ctx, parity):
             terms.append(([1, 0], np.eye(L)))
         ctx.count("float_sweep")
         try:
-            oracle_enc(ctx, W, L, terms, parity, exact=False, lad=lads.get(L))
+            enc, _ = oracle_enc(ctx, W, L, terms, parity, exact=False, lad=lads.get(L))
+            oracle_encx(ctx, W, L, terms, parity, lad=lads.get(L), enc=enc)
         except Exception as e:
             ctx.fail(name + ":exception", dict(desc_terms(L, terms), kind="enc", parity=parity, exact=False), "encoded operator", repr(e))
 
@@ -253,6 +504,19 @@ def encoder_replay(ctx, data):
         L, terms = undesc_terms(inp)
         lad = enc_lad_impl(W, L, True) if parity else None
         oracle_enc(ctx, W, L, terms, parity, exact=inp.get("exact", True), lad=lad)
+    elif inp.get("kind") == "encx":
+        L, terms = undesc_terms(inp)
+        oracle_encx(ctx, W, L, terms, parity, lad=enc_lad_impl(W, L, True) if parity else None)
+    elif inp.get("kind") == "enchomog":
+        L, terms = undesc_terms(inp)
+        oracle_enc_homog(ctx, W, L, terms, parity, inp["e"])
+    elif inp.get("kind") == "enchist":
+        L, ta = undesc_terms(inp["a"])
+        _, tb = undesc_terms(inp["b"])
+        oracle_enc_history(ctx, W, L, ta, tb, parity)
+    elif inp.get("kind") == "selftest":
+        if not selftest_pauli_convention(W, 3, ctx.rng):
+            ctx.fail(sig, inp)
     if len(ctx.failing) > before:
         ctx.failing[:] = ctx.failing[:before]
         ctx.fail(sig, inp, data.get("expected"), "still fails")
